@@ -38,6 +38,9 @@ class _Quoter:
             return None
         if not isinstance(val, str):
             raise TypeError("Argument should be str")
+        if type(val) is not str:
+            # derived from str: same conversion as the C implementation
+            val = str(val)
         if not val:
             return ""
         bval = val.encode("utf8", errors="ignore")
@@ -127,6 +130,9 @@ class _Unquoter:
             return None
         if not isinstance(val, str):
             raise TypeError("Argument should be str")
+        if type(val) is not str:
+            # derived from str: same conversion as the C implementation
+            val = str(val)
         if not val:
             return ""
         decoder = cast(codecs.BufferedIncrementalDecoder, utf8_decoder())
